@@ -464,6 +464,15 @@ class Executor:
                 pv = self.eval_promoted(st, frame, v.uid)
                 if pv is not None:
                     return pv
+            if isinstance(v, FnItem) and re.fullmatch(r"[\w:]+", v.text):
+                # a named constant of the crate with a literal value
+                cands = [c for c in self.prog.named_consts.get(v.text.split("::")[-1], [])
+                         if c.name == v.text or v.text.endswith("::" + c.name) or c.name.endswith("::" + v.text)]
+                if len(cands) == 1:
+                    try:
+                        return self.const(cands[0].const_literal)
+                    except Unencodable:
+                        pass
             return v
         cell, path = self.eval_place(st, frame, op.place)
         return self.read(st, cell, path)
@@ -1092,9 +1101,13 @@ class MirProgram:
         self.free = {}         # last segment -> [fn]
         self.closures = {}     # '{closure@...}' -> fn
         self.promoted = {}     # 'owner::promoted[k]' -> fn
+        self.named_consts = {}  # last path segment -> [fn]
         for f in fns:
             if getattr(f, "is_promoted", False):
                 self.promoted.setdefault(f.name, []).append(f)
+                continue
+            if getattr(f, "is_named_const", False):
+                self.named_consts.setdefault(f.name.split("::")[-1], []).append(f)
                 continue
             self._index(f)
 
@@ -1670,6 +1683,11 @@ def m_fp_method(ex, st, callee, args, dest_ty, frame, depth):
         return _ret(st, Prim("bool", z3.And(z3.Not(z3.fpIsInf(x)), z3.Not(z3.fpIsNaN(x)))))
     if name == "abs":
         return _ret(st, Prim("f64", z3.fpAbs(x)))
+    rounding = {"trunc": z3.RoundTowardZero(), "floor": z3.RoundTowardNegative(), "ceil": z3.RoundTowardPositive(), "round": z3.RoundNearestTiesToAway()}
+    if name in rounding:
+        return _ret(st, Prim("f64", z3.fpRoundToIntegral(rounding[name], x)))
+    if name == "fract":
+        return _ret(st, Prim("f64", z3.fpSub(RNE, x, z3.fpRoundToIntegral(z3.RoundTowardZero(), x))))
     raise Unencodable(callee)
 
 
@@ -1888,6 +1906,73 @@ def m_iter_collect_result(ex, st, callee, args, dest_ty, frame, depth):
     return results
 
 
+def m_vec_with_capacity(ex, st, callee, args, dest_ty, frame, depth):
+    return _ret(st, Seq(dest_ty, (), "slice"))
+
+
+def m_vec_extend_mapped(ex, st, callee, args, dest_ty, frame, depth):
+    """<Vec<T> as Extend<T>>::extend(&mut vec, iter.map(f)): f runs for EVERY item, in order; results are appended"""
+    c, p = ex.deref_target(st, args[0])
+    vec = ex.read(st, c, p)
+    it = args[1]
+    if not isinstance(vec, Seq) or not isinstance(it, IterVal) or it.f is None:
+        raise Unencodable(f"Vec::extend on {vec!r} with {it!r}")
+    fc = f"clo{next(ex.counter)}"
+    st.heap[fc] = it.f
+    f = Ref("&mut F", fc, ())
+    results = []
+
+    def go(st, i, cells):
+        if i == len(it.items):
+            ex.write(st, c, p, Seq(vec.ty, tuple(vec.items) + tuple(cells), vec.kind))
+            results.append((st, Outcome("ret", UNIT)))
+            return
+        for s2, o in ex.call_value(st, f, [_iter_item(it, i)], "?", frame, depth):
+            if o.kind != "ret":
+                results.append((s2, o))
+                continue
+            cell = f"el{next(ex.counter)}"
+            s2.heap[cell] = o.value
+            go(s2, i + 1, cells + [cell])
+    go(st, 0, [])
+    return results
+
+
+def m_vec_into_iter_owned(ex, st, callee, args, dest_ty, frame, depth):
+    v = args[0]
+    if not isinstance(v, Seq):
+        raise Unencodable(f"into_iter on {v!r}")
+    return _ret(st, IterVal(dest_ty, v.items, "owned"))
+
+
+def m_collect_results_plain(ex, st, callee, args, dest_ty, frame, depth):
+    """<vec::IntoIter<Result<T, E>> as Iterator>::collect::<Result<Vec<T>, E>>: the first Err wins"""
+    it = args[0]
+    if not isinstance(it, IterVal) or it.f is not None:
+        raise Unencodable(f"collect on {it!r}")
+    coll_ty = (generic_args(dest_ty) or ["?"])[0]
+    results = []
+
+    def go(st, i, acc):
+        if i == len(it.items):
+            cells = []
+            for v in acc:
+                cname = f"el{next(ex.counter)}"
+                st.heap[cname] = v
+                cells.append(cname)
+            results.append((st, Outcome("ret", ex.mk_enum(dest_ty, "Ok", [Seq(coll_ty, cells, "slice")]))))
+            return
+        item = st.heap[it.items[i]]
+        for s3, vn in ex.case_split(st, item, getattr(item, "ty", "std::result::Result<T, E>")):
+            if vn == "Ok":
+                go(s3, i + 1, acc + [ex.enum_field(s3, item, "Ok", 0, "T")])
+            else:
+                e = ex.enum_field(s3, item, "Err", 0, (generic_args(dest_ty) or ["?", "?"])[-1])
+                results.append((s3, Outcome("ret", ex.mk_enum(dest_ty, "Err", [e]))))
+    go(st, 0, [])
+    return results
+
+
 def m_prim_eq(ex, st, callee, args, dest_ty, frame, depth):
     """<&int as PartialEq>::eq / <int as PartialEq>::eq (any number of & layers)"""
     def deref(x):
@@ -1925,6 +2010,10 @@ DEFAULT_MODELS = [
     (_rx(r"Iter<.*> as Iterator>::try_for_each::<"), m_iter_try_for_each),
     (_rx(r"Iter<.*> as Iterator>::map::<"), m_iter_map),
     (_rx(r"^<std::iter::Map<.*> as Iterator>::collect::<std::(result::Result|option::Option)<"), m_iter_collect_result),
+    (_rx(r"^<std::vec::IntoIter<std::result::Result<.*>> as Iterator>::collect::<std::result::Result<"), m_collect_results_plain),
+    (_rx(r"^<Vec<.*> as Extend<.*>>::extend::<std::iter::Map<"), m_vec_extend_mapped),
+    (_rx(r"^Vec::<.*>::with_capacity$"), m_vec_with_capacity),
+    (_rx(r"^<Vec<std::result::Result<.*>> as IntoIterator>::into_iter$"), m_vec_into_iter_owned),
     (_rx(r" as (std::ops::)?Fn(Mut|Once)?<.*>>::call(_mut|_once)?$"), m_fn_call),
     (_rx(r" as (std::ops::)?Try>::branch$"), m_try_branch),
     (_rx(r" as (std::ops::)?FromResidual<.*>>::from_residual$"), m_from_residual),
@@ -1944,6 +2033,6 @@ DEFAULT_MODELS = [
     (_rx(r"^(std::cmp::)?Ordering::(is_gt|is_ge|is_lt|is_le|is_eq|is_ne)$"), m_ordering_pred),
     (_rx(r"^(std::rt::|core::panicking::)?(panic|panic_fmt|begin_panic|panic_display|panic_explicit)\b|::expect_failed$|::unwrap_failed$|^(core::)?panicking::panic"), m_panic),
     (_rx(r"^(std::mem::|core::mem::)?drop::<| as (std::ops::)?Drop>::drop$"), m_drop),
-    (_rx(r"<impl f64>::(is_nan|is_normal|is_infinite|is_finite|abs)$"), m_fp_method),
+    (_rx(r"<impl f64>::(is_nan|is_normal|is_infinite|is_finite|abs|fract|trunc|floor|ceil|round)$"), m_fp_method),
     (_rx(r"<impl (i64|i32|isize|u64|usize|u32|u8)>::(wrapping_add|wrapping_sub|wrapping_mul|wrapping_rem|wrapping_div|wrapping_neg|wrapping_abs|unsigned_abs|abs|saturating_sub|saturating_add|checked_add|checked_sub|checked_neg|min|max)$"), m_int_method),
 ]
